@@ -41,6 +41,9 @@ func EqC(a, b *C) bool { return deriveEqual(a, b) }
 
 func EqB2(a, b *B) bool { return deriveEqualX(a, b) }
 
+// a later derive call of another plugin that keeps its name (the file must still be rewritten for the earlier renames)
+func KeysOf(m map[string]int) []string { return deriveKeys(m) }
+
 func UserVar(a, b int) bool { return deriveEqual_(a, b) }
 
 func UserFunc(a, b uint8) bool { return deriveEqual_1(a, b) }
@@ -93,6 +96,12 @@ func VX_C11_e2e_B() {
 func VX_C11_e2e_C() {
 	x, y := vx.Nondet[*C]("x"), vx.Nondet[*C]("y")
 	vx.Assert(EqC(x, y) == refEqC(x, y), "the renamed call site over *C reaches an Equal generated for *C")
+}
+
+func VX_C11_e2e_keys() {
+	m := vx.NondetOpt[map[string]int]("m", "map=2,str=1")
+	ks := KeysOf(m)
+	vx.Assert(len(ks) == len(m), "the unrenamed call of another plugin still works")
 }
 
 func VX_C11_e2e_user() {
